@@ -188,7 +188,7 @@ def run(ctx):
     hide, why = list_hides_only_control(F)
     ctx.check(hide, 'C13.R4', 'serve:List-hides-only-.copia', 'the listing drops an entry only when p.starts_with(".copia")',
               'the List arm hides something else than the .copia control directory (%s)' % why, 'src/bin/copia/serve.rs (serve::serve)')
-    r5(ctx, F)
+    ctx.attempt(r5, ctx, F)
 
 
 def put_reply_meaning(F, p):
